@@ -1,8 +1,8 @@
 (* C09 — dt_bump adds business days, calendar units and compound tenors exactly.
    Property theorems only; each is closed by an existing lemma.  Statements about
    Gen_dates.* are about the Gallina text regenerated from /repo/src/pyg_base/_dates.py. *)
-From Coq Require Import ZArith List Bool Lia.
-From PB Require Import model.M_cal model.M_dates proofs.P_cal proofs.P_dates_b proofs.P_dates_m proofs.P_dates_gen.
+From Coq Require Import ZArith List Bool Lia String.
+From PB Require Import model.M_cal model.M_dates model.M_tenor proofs.P_cal proofs.P_dates_b proofs.P_dates_m proofs.P_dates_gen proofs.P_tenor.
 From PB Require gen.Gen_dates.
 Import ListNotations.
 Open Scope Z_scope.
@@ -92,10 +92,20 @@ Theorem C09_compound_left_to_right t a b :
 Proof. exact (dt_bump_app t a b). Qed.
 Print Assumptions C09_compound_left_to_right.
 
+(* the tokeniser: every well-formed tenor string (parts = optional sign, digits, unit letter) parses to
+   exactly the tokens it spells, so the token-level theorems above speak about the strings themselves *)
+Theorem C09_tokenizer_reads_spelling ps : Forall well_formed ps -> forall fuel,
+  (List.length (List.concat (map spell ps)) < fuel)%nat ->
+  tokens_fuel fuel (List.concat (map spell ps)) = Some (map meaning ps).
+Proof. exact (tokens_of_spelling ps). Qed.
+Print Assumptions C09_tokenizer_reads_spelling.
+
 (* non-vacuity: 2000-01-31 (Monday) satisfies the hypotheses; '1m' rolls 2 excess days into March *)
 Example C09_example :
   let t := us_of_ord 730150 in
   weekday t = 0 /\ ymd_of_ord (ord_of_us t) = (2000, 1, 31) /\
   dt_bump t [(1, UM)] = Some (us_of_ord 730181) /\ ymd_of_ord 730181 = (2000, 3, 2) /\
-  dt_bump t [(1, UY); (-3, UM); (2, UD)] = Some (us_of_ord (ord_of_ymd 2000 11 2)).
+  dt_bump t [(1, UY); (-3, UM); (2, UD)] = Some (us_of_ord (ord_of_ymd 2000 11 2)) /\
+  tokenize "1Y-3m+2d"%string = Some [(1, UY); (-3, UM); (2, UD)] /\ tokenize "spot"%string = Some [(0, UB)] /\
+  tokenize "1y3"%string = None /\ dt_bump_str t "1y-3m2d"%string = Some (us_of_ord (ord_of_ymd 2000 11 2)).
 Proof. vm_compute. repeat split; reflexivity. Qed.
